@@ -149,6 +149,17 @@ def r12_t(run, fx, floors):
                     ok = True
                 else:
                     why = "the filter closure does not reject every tag for which is_var_table(tag) holds"
+        if not ok:
+            # the same filter written as a guard: `if .. || is_var_table(tag) || .. { continue }` - the call is only reached where is_var_table(tag) was false
+            import guards
+            ntag = sym.norm(tag)
+            for tb_, fb_, call, sw in guards.bool_call_conditions(b, prov):
+                if fb_ is not None and b.dominates(fb_, bi) and (call[4] or call[1] or "").endswith("is_var_table") and call[2]:
+                    a0 = sym.strip(call[2][0])
+                    while a0[0] in ("deref", "ref"):
+                        a0 = sym.strip(a0[1])
+                    if sym.norm(a0) == ntag:
+                        ok = True
         if ok:
             run.ok("R12-T", "add_table(tag) with tag from tags.into_iter().filter(|tag| .. && !is_var_table(*tag) ..)")
         else:
@@ -212,6 +223,11 @@ def r12_d(run, fx):
         elif kind == "assign":
             rv = item["rv"]
             if rv["k"] == "agg" and rv.get("vname") == "Err":
+                continue
+            # `match builder.data() { Ok(data) => Ok((data, instance)), .. }`
+            if rv["k"] == "agg" and rv.get("vname") == "Ok" and any(
+                    sub[0] == "call" and (sub[1] or "").endswith("FontBuilderWithHead::data") for f in rv["fields"] for sub in sym.walk(prov.op(f))):
+                ok = True
                 continue
             others.append("assignment at %s" % b.loc(item))
     if ok and not others:
